@@ -526,6 +526,9 @@ class ExprMixin:
             return any(a[0] != "lit" or a[1] for a in v.atoms) or self._text_truth(v, path)
         if isinstance(v, (Obj, Closure, ClassVal, Stub, ModRef, SCls)):
             return True
+        if isinstance(v, BoundMethod) and isinstance(v.recv, SV):
+            # a data attribute of an opaque object used as a condition: its truth is not known
+            return path.branch(to_bool_term(SV(v.as_val())))
         return bool(v)
 
     def _text_truth(self, v, path):
